@@ -1,1 +1,114 @@
-(* stub: to be written *)
+(* C11 — the requested opset is honoured.
+   Only statements here; definitions and proofs live in theories/Opset.v over
+   gen/GenSchemas.v (operator schemas dumped from the INSTALLED onnx.defs on this run) and
+   gen/GenOpsetUtils.v (translated from /repo's working tree on this run).
+   harness/c11.py evaluates opset_ok / all_problems on the real exports at every opset 21..newest. *)
+From Coq Require Import ZArith String List Bool.
+From J2O Require Import Onnx Opset.
+From J2OGen Require Import GenSchemas GenOpsetUtils.
+Import ListNotations.
+Local Open Scope string_scope.
+Local Open Scope Z_scope.
+
+(* (V) soundness of the validator, graphs: every node of every graph of the table (main graph and all
+   nested bodies) has its domain imported; a call of a model-local function fits the function's signature;
+   a standard-domain node has an operator version sv with since <= declared opset, no other version
+   <= declared is newer, sv is not deprecated, arity within sv's range, attributes among sv's. *)
+Theorem C11_opset_ok_sound : forall m, opset_ok m = true ->
+  forall g n, In g (om_graphs m) -> In n (og_nodes g) ->
+  exists declared, In (on_domain n, declared) (om_opsets m) /\ opset_of (om_opsets m) (on_domain n) = Some declared /\
+   ((exists f, (In f (om_functions m) /\ of_domain f = on_domain n /\ of_name f = on_op n) /\
+               0 <= n_ins n <= Z.of_nat (length (of_inputs f)) /\ 0 <= n_outs n <= Z.of_nat (length (of_outputs f)) /\
+               forall a, In a (attr_names n) -> In a (of_attr_names f))
+    \/
+    ((forall f, ~ (In f (om_functions m) /\ of_domain f = on_domain n /\ of_name f = on_op n)) /\
+     forall tbl, domain_table (on_domain n) = Some tbl ->
+       exists vs sv, In (on_op n, vs) tbl /\
+         (In sv vs /\ sv_since sv <= declared /\
+          forall sv', In sv' vs -> sv_since sv' <= declared -> sv_since sv' <= sv_since sv) /\
+         sv_deprecated sv = false /\
+         (sv_min_in sv <= n_ins n <= sv_max_in sv /\ sv_min_out sv <= n_outs n <= sv_max_out sv /\
+          forall a, In a (attr_names n) -> In a (sv_attrs sv)))).
+Proof. exact opset_ok_sound. Qed.
+Print Assumptions C11_opset_ok_sound.
+
+(* (V) the same for function bodies, against the function's OWN opset imports *)
+Theorem C11_opset_ok_sound_functions : forall m, opset_ok m = true ->
+  forall f n, In f (om_functions m) -> In n (of_nodes f) -> node_conforms_in (om_functions m) (of_opsets f) n.
+Proof. exact opset_ok_sound_functions. Qed.
+Print Assumptions C11_opset_ok_sound_functions.
+
+(* (V) ... and a function never declares another version of a domain than the model *)
+Theorem C11_function_imports_agree : forall m, opset_ok m = true ->
+  forall f d v, In f (om_functions m) -> In (d, v) (of_opsets f) -> opset_of (om_opsets m) d = Some v.
+Proof. exact opset_ok_function_imports. Qed.
+Print Assumptions C11_function_imports_agree.
+
+(* (V) every body reachable from the main graph through graph attributes is in the table and conforms *)
+Theorem C11_opset_ok_nested : forall m, opset_ok m = true -> om_graphs m <> [] ->
+  forall i, reachable m i -> exists g, graph_by_id m i = Some g /\ forall n, In n (og_nodes g) -> node_conforms m n.
+Proof. exact opset_ok_nested. Qed.
+Print Assumptions C11_opset_ok_nested.
+
+(* (V) spelled out for a standard-domain node, with the concrete dumped table *)
+Theorem C11_standard_node : forall m, opset_ok m = true ->
+  forall g n, In g (om_graphs m) -> In n (og_nodes g) -> on_domain n = "" ->
+  (forall f, ~ calls_function (om_functions m) n f) ->
+  exists declared vs sv, declared_opset m = Some declared /\ In (on_op n, vs) schemas /\
+    In sv vs /\ sv_since sv <= declared /\
+    (forall sv', In sv' vs -> sv_since sv' <= declared -> sv_since sv' <= sv_since sv) /\
+    sv_deprecated sv = false /\
+    sv_min_in sv <= n_ins n <= sv_max_in sv /\ sv_min_out sv <= n_outs n <= sv_max_out sv /\
+    (forall a, In a (attr_names n) -> In a (sv_attrs sv)).
+Proof. exact opset_ok_standard_node. Qed.
+Print Assumptions C11_standard_node.
+
+(* schema_at is "the operator as of that opset": sound and complete w.r.t. the declarative selection *)
+Theorem C11_version_at_spec : forall vs opset sv, version_at vs opset = Some sv ->
+  In sv vs /\ sv_since sv <= opset /\ forall sv', In sv' vs -> sv_since sv' <= opset -> sv_since sv' <= sv_since sv.
+Proof. exact version_at_spec. Qed.
+Print Assumptions C11_version_at_spec.
+
+Theorem C11_version_at_none : forall vs opset, version_at vs opset = None -> forall sv, In sv vs -> opset < sv_since sv.
+Proof. exact version_at_None. Qed.
+Print Assumptions C11_version_at_none.
+
+(* the dumped table has one row per operator: "In (op, vs) schemas" determines vs *)
+Theorem C11_schemas_functional : forall op vs1 vs2, In (op, vs1) schemas -> In (op, vs2) schemas -> vs1 = vs2.
+Proof. exact schemas_functional. Qed.
+Print Assumptions C11_schemas_functional.
+
+(* (P, finite) builder_reduce_with_axes: for EVERY opset in [13, newest] and every reduction of
+   _REDUCTION_AXES_INPUT_SINCE, the translated branch passes the axes as an input exactly when the schema at
+   that opset has the axes input (and as an attribute exactly when the schema has the attribute), and the node
+   it emits (arity + attribute names) is admitted by that schema. *)
+Theorem C11_reduce_form_correct : forall opset op since,
+  13 <= opset <= onnx_newest_opset -> In (op, since) REDUCTION_AXES_INPUT_SINCE ->
+  exists sv, schema_at op opset = Some sv /\ sv_deprecated sv = false /\
+    (since <= opset <-> sv_max_in sv = 2 /\ ~ In "axes" (sv_attrs sv)) /\
+    (opset < since <-> sv_max_in sv = 1 /\ In "axes" (sv_attrs sv)) /\
+    (let form := (if reduce_uses_axes_attribute opset since then reduce_form_attribute else reduce_form_input) in
+     sv_min_in sv <= fst form <= sv_max_in sv /\ forall a, In a (snd form) -> In a (sv_attrs sv)) /\
+    (sv_min_in sv <= fst reduce_form_no_axes <= sv_max_in sv /\ forall a, In a (snd reduce_form_no_axes) -> In a (sv_attrs sv)).
+Proof. exact reduce_form_correct. Qed.
+Print Assumptions C11_reduce_form_correct.
+
+(* (P, finite) the Swish rewrite: whenever the translated guard lets it run, Swish exists at the declared opset *)
+Theorem C11_swish_guard_sound : forall v, 1 <= v <= onnx_newest_opset ->
+  swish_rewrite_enabled v = true ->
+  exists sv, schema_at "Swish" v = Some sv /\ sv_deprecated sv = false /\ sv_min_in sv <= 1 <= sv_max_in sv.
+Proof. exact swish_guard_sound. Qed.
+Print Assumptions C11_swish_guard_sound.
+
+(* ... and the guard is exact: Swish exists at opset v iff threshold-of-the-guard <= v *)
+Theorem C11_swish_guard_correct : forall v, 1 <= v <= onnx_newest_opset ->
+  (schema_at "Swish" v <> None <-> swish_guard_constant <= v).
+Proof. exact swish_guard_correct. Qed.
+Print Assumptions C11_swish_guard_correct.
+
+(* the property is FALSE of the unchanged exporter at the default opset: the two operators the plugins
+   lax/jnp cumprod and lax.bitcast_convert_type emit do not exist before opset 26 (see harness: real exports) *)
+Theorem C11_cumprod_bitcast_absent_before_26 :
+  forall v, 1 <= v <= 25 -> schema_at "CumProd" v = None /\ schema_at "BitCast" v = None.
+Proof. exact cumprod_bitcast_absent_before_26. Qed.
+Print Assumptions C11_cumprod_bitcast_absent_before_26.
